@@ -58,6 +58,13 @@ Theorem acked_txids_stay_covered : forall t,
 Proof. exact CoverProofs.acked_txids_stay_covered. Qed.
 Print Assumptions acked_txids_stay_covered.
 
+(** directories are objects: an fsync through a descriptor opened on an earlier
+    directory object at the same path (before rmdir / mkdir) changes nothing *)
+Theorem stale_dir_fsync_noop : forall s fd d g,
+  sfd s fd = Some (FDir d g) -> g <> sgen s d -> step s (Fsync fd) = s.
+Proof. exact ProtoProofs.stale_dir_fsync_noop. Qed.
+Print Assumptions stale_dir_fsync_noop.
+
 (** finding F10 (fixed in /repo by b0f06c5): the fetched-baseline sequence as the code issued it before the fix *)
 Theorem baseline_fetch_prefix_refuted : forall fd dir nm nm' txid ws,
   let t := baseline_fetch_prefix fd dir nm nm' txid ws in
